@@ -168,6 +168,24 @@ def gen_base(rng, opts):
     if rng.random() < opts.get("p_quad", 0.4):
         case["n_explicit_quad"] = 1
         case["quad"].append(rand_poly(rng, syms, maxdeg))
+    # scale= arguments
+    if rng.random() < opts.get("p_scale", 0.0):
+        svals = [2, 4, Fraction(1, 2), 8, 10, Fraction(1, 4), 3]
+        for key in ("states", "controls", "algebraics", "vars"):
+            for dd in case.get(key, []):
+                if rng.random() < 0.6:
+                    n = dd["rows"] * dd["cols"]
+                    if n > 1 and rng.random() < 0.5:
+                        dd["scale"] = [jq(rng.choice(svals)) for _ in range(n)]   # element-wise
+                    else:
+                        dd["scale"] = jq(rng.choice(svals))
+        if not discrete and rng.random() < 0.5:
+            # set_der(..., scale=) : one value per declared state (element-wise values need equal sizes)
+            sd = []
+            for dd in case["states"]:
+                v = rng.choice(svals)
+                sd += [jq(v)] * (dd["rows"] * dd["cols"])
+            case["scale_der"] = sd
     # parameter values
     pv = {"p": [], "pc": [], "pp": []}
     npg = nslots([d for d in case["params"] if d["grid"] == ""])
